@@ -1,15 +1,441 @@
 import Yuiv.Proofs.C13
+import Yuiv.Proofs.C13Trans
+import Yuiv.Proofs.C13Dense
+import Yuiv.Proofs.C13Block
+import Yuiv.Proofs.C13Raw
 /-
-C13 — sparse and dense matrix containers implement ordinary matrix algebra (property theorems).
+C13 — sparse and dense matrix containers implement ordinary matrix algebra.
+
+Property theorems only (spec definitions and helper lemmas live in `Yuiv/Proofs/C13*.lean`).  They are
+statements about the code model `Yuiv/Model/C13.lean`, for an arbitrary commutative ring `R` with decidable
+equality (`Int` is one; the driver also runs the model over models of `Ratio<i64>` and `FF<3>`):
+
+* `A.entry i j` is what `into_dense` reads (sum of the stored values at `(i, j)`; stored zeros allowed);
+  `A.WF` says the CSC data is well formed (every `SpMat` value is; each constructor theorem re-establishes it).
+* yui's own index-remapping code is proved entry by entry; nalgebra's kernels (`COO→CSC`, `+ − · neg transpose`,
+  dense↔sparse) are *defined* by their mathematical meaning in the model and only compared with the real
+  code in the differential run — the `*_kernel` theorems just record that the definitions mean what they should
+  (they are needed for the `Trans` laws).
+* `A.apply x` is the linear map `x ↦ A·x` on coordinate functions; `fwdSem [f₀,…,fₙ] = fₙ ∘ ⋯ ∘ f₀`,
+  `bwdSem [b₀,…,bₙ] = b₀ ∘ ⋯ ∘ bₙ`.
 -/
 namespace Yuiv.C13
 open Yuiv Res
 
 variable {R : Type} [CommRing R] [DecidableEq R]
 
-/-- `from_entries`: shape, well-formed CSC data, entries = sums of the given triplets -/
+/-! ### construction from entries -/
+
+/-- `from_entries`: shape, well-formed data, entry = sum of the given triplets at that position
+(zero values skipped, duplicates summed — possibly to a stored zero) -/
 theorem from_entries_entries (m n : Nat) (es : List (Trip R)) (A : SpMat R) (h : fromEntries m n es = ok A) :
     A.nrows = m ∧ A.ncols = n ∧ A.WF ∧ ∀ i j, A.entry i j = if i < m ∧ j < n then entryT es i j else 0 :=
   fromEntries_spec m n es A h
+
+/-- `from_entries` succeeds iff every non-zero entry is inside the shape -/
+theorem from_entries_defined (m n : Nat) (es : List (Trip R)) :
+    (∃ A, fromEntries m n es = ok A) ↔ ∀ t ∈ es, t.2.2 ≠ 0 → t.1 < m ∧ t.2.1 < n := by
+  constructor
+  · rintro ⟨A, hA⟩
+    by_contra hc
+    rw [fromEntries_panic m n es hc] at hA; cases hA
+  · intro h; exact ⟨_, fromEntries_ok m n es h⟩
+
+theorem from_entries_reject (m n : Nat) (es : List (Trip R))
+    (h : ∃ t ∈ es, t.2.2 ≠ 0 ∧ ¬ (t.1 < m ∧ t.2.1 < n)) : fromEntries m n es = panic := by
+  apply fromEntries_panic
+  intro hs
+  obtain ⟨t, ht, hnz, hb⟩ := h
+  exact hb (hs t ht hnz)
+
+/-- the stored triplets of a matrix sum up to its entries (what `iter()` hands to every `extract` client) -/
+theorem triplets_entries (A : SpMat R) (i j : Nat) : entryT A.triplets i j = A.entry i j := entryT_triplets A i j
+
+/-! ### `extract`, `permute`, `submat` -/
+
+/-- `extract(shape, f)` for a total relocation `g`: the new entry at `(i', j')` is the sum of the stored values
+that `g` sends there -/
+theorem extract_entries (A : SpMat R) (m n : Nat) (f : Nat → Nat → Res (Option (Nat × Nat)))
+    (g : Nat → Nat → Option (Nat × Nat))
+    (hf : ∀ t ∈ A.triplets, f t.1 t.2.1 = ok (g t.1 t.2.1))
+    (hg : ∀ t ∈ A.triplets, ∀ x, g t.1 t.2.1 = some x → x.1 < m ∧ x.2 < n) :
+    ∃ B, A.extract m n f = ok B ∧ B.nrows = m ∧ B.ncols = n ∧ B.WF ∧
+      ∀ i' j', i' < m → j' < n →
+        B.entry i' j' = ((A.triplets.filter (fun t => g t.1 t.2.1 = some (i', j'))).map (·.2.2)).sum :=
+  extract_spec A m n f g hf hg
+
+/-- `permute(p, q)`: `entry (permute p q A) (p i) (q j) = entry A i j` -/
+theorem permute_entries (A : SpMat R) (hA : A.WF) (p q : Perm) (hp : p.Valid) (hq : q.Valid)
+    (hpd : p.dim = A.nrows) (hqd : q.dim = A.ncols) :
+    ∃ B, A.permute p q = ok B ∧ B.nrows = A.nrows ∧ B.ncols = A.ncols ∧ B.WF ∧
+      ∀ i j, i < A.nrows → j < A.ncols → B.entry (p.fn i) (q.fn j) = A.entry i j :=
+  permute_spec A hA p q hp hq hpd hqd
+
+theorem permute_rows_entries (A : SpMat R) (hA : A.WF) (p : Perm) (hp : p.Valid) (hpd : p.dim = A.nrows) :
+    ∃ B, A.permuteRows p = ok B ∧ B.nrows = A.nrows ∧ B.ncols = A.ncols ∧ B.WF ∧
+      ∀ i j, i < A.nrows → j < A.ncols → B.entry (p.fn i) j = A.entry i j :=
+  permute_spec A hA p (Perm.identity A.ncols) hp (Perm.identity_valid _) hpd rfl
+
+theorem permute_cols_entries (A : SpMat R) (hA : A.WF) (q : Perm) (hq : q.Valid) (hqd : q.dim = A.ncols) :
+    ∃ B, A.permuteCols q = ok B ∧ B.nrows = A.nrows ∧ B.ncols = A.ncols ∧ B.WF ∧
+      ∀ i j, i < A.nrows → j < A.ncols → B.entry i (q.fn j) = A.entry i j :=
+  permute_spec A hA (Perm.identity A.nrows) q (Perm.identity_valid _) hq rfl hqd
+
+/-- the values accepted by `PermOwned::new` are exactly the permutations of `0..n`; they act injectively -/
+theorem perm_new_defined (l : List Nat) :
+    (∃ p, Perm.new l = ok p) ↔ (∀ x ∈ l, x < l.length) ∧ l.Nodup := by
+  constructor
+  · rintro ⟨p, hp⟩
+    by_contra hc
+    rw [Perm.new_panic l hc] at hp; cases hp
+  · rintro ⟨h1, h2⟩; exact ⟨_, (Perm.new_ok l h1 h2).1⟩
+
+theorem perm_injective (p : Perm) (hv : p.Valid) (i j : Nat) (hi : i < p.dim) (hj : j < p.dim)
+    (h : p.fn i = p.fn j) : i = j := p.fn_inj hv i j hi hj h
+
+/-- `submat(i0..i1, j0..j1)` -/
+theorem submat_entries (A : SpMat R) (hA : A.WF) (i0 i1 j0 j1 : Nat)
+    (hi : i0 ≤ i1 ∧ i1 ≤ A.nrows) (hj : j0 ≤ j1 ∧ j1 ≤ A.ncols) :
+    ∃ B, A.submat i0 i1 j0 j1 = ok B ∧ B.nrows = i1 - i0 ∧ B.ncols = j1 - j0 ∧ B.WF ∧
+      ∀ i j, i < i1 - i0 → j < j1 - j0 → B.entry i j = A.entry (i0 + i) (j0 + j) :=
+  submat_spec A hA i0 i1 j0 j1 hi hj
+
+theorem submat_rejects (A : SpMat R) (i0 i1 j0 j1 : Nat)
+    (h : ¬ ((i0 ≤ i1 ∧ i1 ≤ A.nrows) ∧ (j0 ≤ j1 ∧ j1 ≤ A.ncols))) : A.submat i0 i1 j0 j1 = panic :=
+  submat_reject A i0 i1 j0 j1 h
+
+theorem submat_rows_entries (A : SpMat R) (hA : A.WF) (i0 i1 : Nat) (hi : i0 ≤ i1 ∧ i1 ≤ A.nrows) :
+    ∃ B, A.submatRows i0 i1 = ok B ∧ B.nrows = i1 - i0 ∧ B.ncols = A.ncols ∧ B.WF ∧
+      ∀ i j, i < i1 - i0 → j < A.ncols → B.entry i j = A.entry (i0 + i) j := by
+  obtain ⟨B, h1, h2, h3, h4, h5⟩ := submat_spec A hA i0 i1 0 A.ncols hi ⟨Nat.zero_le _, Nat.le_refl _⟩
+  exact ⟨B, h1, h2, h3, h4, fun i j hi' hj' => by rw [h5 i j hi' hj', Nat.zero_add]⟩
+
+theorem submat_cols_entries (A : SpMat R) (hA : A.WF) (j0 j1 : Nat) (hj : j0 ≤ j1 ∧ j1 ≤ A.ncols) :
+    ∃ B, A.submatCols j0 j1 = ok B ∧ B.nrows = A.nrows ∧ B.ncols = j1 - j0 ∧ B.WF ∧
+      ∀ i j, i < A.nrows → j < j1 - j0 → B.entry i j = A.entry i (j0 + j) := by
+  obtain ⟨B, h1, h2, h3, h4, h5⟩ := submat_spec A hA 0 A.nrows j0 j1 ⟨Nat.zero_le _, Nat.le_refl _⟩ hj
+  exact ⟨B, h1, h2, h3, h4, fun i j hi' hj' => by rw [h5 i j hi' hj', Nat.zero_add]⟩
+
+/-! ### four-way split and recombination, concatenation, stacking -/
+
+theorem divide4_entries (A : SpMat R) (hA : A.WF) (k l : Nat) (hk : k ≤ A.nrows) (hl : l ≤ A.ncols) :
+    ∃ a b c d, A.divide4 k l = ok (a, b, c, d) ∧
+      (a.nrows = k ∧ a.ncols = l ∧ a.WF) ∧ (b.nrows = k ∧ b.ncols = A.ncols - l ∧ b.WF) ∧
+      (c.nrows = A.nrows - k ∧ c.ncols = l ∧ c.WF) ∧ (d.nrows = A.nrows - k ∧ d.ncols = A.ncols - l ∧ d.WF) ∧
+      (∀ i j, i < k → j < l → a.entry i j = A.entry i j) ∧
+      (∀ i j, i < k → j < A.ncols - l → b.entry i j = A.entry i (l + j)) ∧
+      (∀ i j, i < A.nrows - k → j < l → c.entry i j = A.entry (k + i) j) ∧
+      (∀ i j, i < A.nrows - k → j < A.ncols - l → d.entry i j = A.entry (k + i) (l + j)) :=
+  divide4_spec A hA k l hk hl
+
+theorem divide4_rejects (A : SpMat R) (k l : Nat) (h : ¬ (k ≤ A.nrows ∧ l ≤ A.ncols)) : A.divide4 k l = panic :=
+  divide4_reject A k l h
+
+theorem combine_blocks_entries (a b c d : SpMat R) (ha : a.WF) (hb : b.WF) (hc : c.WF) (hd : d.WF)
+    (h1 : a.nrows = b.nrows) (h2 : c.nrows = d.nrows) (h3 : a.ncols = c.ncols) (h4 : b.ncols = d.ncols) :
+    ∃ C, combineBlocks a b c d = ok C ∧ C.nrows = a.nrows + c.nrows ∧ C.ncols = a.ncols + b.ncols ∧ C.WF ∧
+      ∀ i j, i < a.nrows + c.nrows → j < a.ncols + b.ncols →
+        C.entry i j = if i < a.nrows then (if j < a.ncols then a.entry i j else b.entry i (j - a.ncols))
+                      else (if j < a.ncols then c.entry (i - a.nrows) j else d.entry (i - a.nrows) (j - a.ncols)) :=
+  combineBlocks_spec a b c d ha hb hc hd h1 h2 h3 h4
+
+theorem combine_blocks_rejects (a b c d : SpMat R)
+    (h : ¬ (a.nrows = b.nrows ∧ c.nrows = d.nrows ∧ a.ncols = c.ncols ∧ b.ncols = d.ncols)) :
+    combineBlocks a b c d = panic := combineBlocks_reject a b c d h
+
+/-- recombining the four parts gives back every entry of `A` -/
+theorem combine_after_divide4 (A : SpMat R) (hA : A.WF) (k l : Nat) (hk : k ≤ A.nrows) (hl : l ≤ A.ncols) :
+    ∃ a b c d C, A.divide4 k l = ok (a, b, c, d) ∧ combineBlocks a b c d = ok C ∧
+      C.nrows = A.nrows ∧ C.ncols = A.ncols ∧ ∀ i j, C.entry i j = A.entry i j :=
+  combine_divide4 A hA k l hk hl
+
+/-- splitting a block matrix at the block boundary gives back every entry of the four blocks -/
+theorem divide4_after_combine (a b c d : SpMat R) (ha : a.WF) (hb : b.WF) (hc : c.WF) (hd : d.WF)
+    (h1 : a.nrows = b.nrows) (h2 : c.nrows = d.nrows) (h3 : a.ncols = c.ncols) (h4 : b.ncols = d.ncols) :
+    ∃ C a' b' c' d', combineBlocks a b c d = ok C ∧ C.divide4 a.nrows a.ncols = ok (a', b', c', d') ∧
+      (∀ i j, a'.entry i j = a.entry i j) ∧ (∀ i j, b'.entry i j = b.entry i j) ∧
+      (∀ i j, c'.entry i j = c.entry i j) ∧ (∀ i j, d'.entry i j = d.entry i j) :=
+  divide4_combine a b c d ha hb hc hd h1 h2 h3 h4
+
+theorem concat_entries (A B : SpMat R) (hA : A.WF) (hB : B.WF) (h : A.nrows = B.nrows) :
+    ∃ C, A.concat B = ok C ∧ C.nrows = A.nrows ∧ C.ncols = A.ncols + B.ncols ∧ C.WF ∧
+      ∀ i j, i < A.nrows → j < A.ncols + B.ncols →
+        C.entry i j = if j < A.ncols then A.entry i j else B.entry i (j - A.ncols) :=
+  concat_spec A B hA hB h
+
+theorem concat_rejects (A B : SpMat R) (h : A.nrows ≠ B.nrows) : A.concat B = panic := concat_reject A B h
+
+theorem stack_entries (A B : SpMat R) (hA : A.WF) (hB : B.WF) (h : A.ncols = B.ncols) :
+    ∃ C, A.stack B = ok C ∧ C.nrows = A.nrows + B.nrows ∧ C.ncols = A.ncols ∧ C.WF ∧
+      ∀ i j, i < A.nrows + B.nrows → j < A.ncols →
+        C.entry i j = if i < A.nrows then A.entry i j else B.entry (i - A.nrows) j :=
+  stack_spec A B hA hB h
+
+theorem stack_rejects (A B : SpMat R) (h : A.ncols ≠ B.ncols) : A.stack B = panic := stack_reject A B h
+
+/-! ### raw CSC arrays: `extend_cols`, `from_col_vecs`, `from_sorted_entries` -/
+
+/-- `disassemble` followed by `try_from_csc_data` is the identity on well-formed data -/
+theorem csc_roundtrip (A : SpMat R) (hA : A.WF) :
+    tryFromCsc A.nrows A.ncols A.disassemble.1 A.disassemble.2.1 A.disassemble.2.2 = ok A := by
+  have := tryFromCsc_cols A.nrows A.cols hA.bound hA.sorted
+  rw [hA.len] at this
+  exact this
+
+/-- `extend_cols` offset arithmetic: popping the last offset of `self` and appending `offset + c_k` yields the
+offsets of the concatenated columns; result = columns of `self` followed by the columns of `b` -/
+theorem extend_cols_columns (A B : SpMat R) (hA : A.WF) (hB : B.WF) (h : A.nrows = B.nrows) :
+    A.extendCols B = ok ⟨A.nrows, A.ncols + B.ncols, A.cols ++ B.cols⟩ ∧
+    (⟨A.nrows, A.ncols + B.ncols, A.cols ++ B.cols⟩ : SpMat R).WF ∧
+    ∀ i j, (⟨A.nrows, A.ncols + B.ncols, A.cols ++ B.cols⟩ : SpMat R).entry i j
+      = if j < A.ncols then A.entry i j else B.entry i (j - A.ncols) :=
+  ⟨extendCols_spec A B hA hB h, extendCols_wf A B hA hB h, extendCols_entry A B hA hB⟩
+
+theorem extend_cols_rejects (A B : SpMat R) (h : A.nrows ≠ B.nrows) : A.extendCols B = panic :=
+  extendCols_reject A B h
+
+theorem from_col_vecs_columns (m : Nat) (vs : List (SpVec R)) (hv : ∀ v ∈ vs, v.WF ∧ v.dim = m) :
+    fromColVecs m vs = ok ⟨m, vs.length, vs.map (·.ents)⟩ ∧
+    ∀ i j (hj : j < vs.length), (⟨m, vs.length, vs.map (·.ents)⟩ : SpMat R).entry i j = (vs[j]).entry i :=
+  ⟨fromColVecs_spec m vs hv, fun i j hj => fromColVecs_entry m vs i j hj⟩
+
+theorem from_col_vecs_rejects (m : Nat) (vs : List (SpVec R)) (h : ∃ v ∈ vs, v.dim ≠ m) : fromColVecs m vs = panic :=
+  fromColVecs_reject m vs h
+
+theorem from_sorted_entries_ok (d : Nat) (es : List (Nat × R))
+    (hb : ∀ p ∈ es, p.1 < d) (hs : (es.map (·.1)).Pairwise (· < ·)) :
+    SpVec.fromSortedEntries d es = ok ⟨d, es⟩ ∧ (⟨d, es⟩ : SpVec R).WF := fromSortedEntries_spec d es hb hs
+
+theorem from_sorted_entries_rejects (d : Nat) (es : List (Nat × R))
+    (h : ¬ ((∀ p ∈ es, p.1 < d) ∧ strictInc (es.map (·.1)) = true)) : SpVec.fromSortedEntries d es = panic :=
+  fromSortedEntries_reject d es h
+
+/-! ### nalgebra kernels: the definitions used by the model mean `+ − · neg transpose` -/
+
+theorem add_kernel (A B : SpMat R) (hA : A.WF) (hB : B.WF) (h1 : A.nrows = B.nrows) (h2 : A.ncols = B.ncols) :
+    ∃ C, A.add B = ok C ∧ C.nrows = A.nrows ∧ C.ncols = A.ncols ∧ C.WF ∧
+      ∀ i j, C.entry i j = A.entry i j + B.entry i j := add_spec A B hA hB h1 h2
+
+theorem sub_kernel (A B : SpMat R) (hA : A.WF) (hB : B.WF) (h1 : A.nrows = B.nrows) (h2 : A.ncols = B.ncols) :
+    ∃ C, A.sub B = ok C ∧ C.nrows = A.nrows ∧ C.ncols = A.ncols ∧ C.WF ∧
+      ∀ i j, C.entry i j = A.entry i j - B.entry i j := sub_spec A B hA hB h1 h2
+
+theorem neg_kernel (A : SpMat R) (hA : A.WF) : A.neg.WF ∧ ∀ i j, A.neg.entry i j = - A.entry i j :=
+  ⟨neg_wf A hA, neg_entry A⟩
+
+theorem transpose_kernel (A : SpMat R) (hA : A.WF) :
+    A.transpose.nrows = A.ncols ∧ A.transpose.ncols = A.nrows ∧ A.transpose.WF ∧
+      ∀ i j, A.transpose.entry i j = A.entry j i := transpose_spec A hA
+
+theorem mul_kernel (A B : SpMat R) (hA : A.WF) (hB : B.WF) (h : A.ncols = B.nrows) :
+    ∃ C, A.mul B = ok C ∧ C.nrows = A.nrows ∧ C.ncols = B.ncols ∧ C.WF ∧
+      ∀ i j, C.entry i j = ∑ k ∈ Finset.range A.ncols, A.entry i k * B.entry k j := mul_spec A B hA hB h
+
+/-- the product's linear map is the composition (associativity comes for free from here on) -/
+theorem mul_is_composition (A B C : SpMat R) (hA : A.WF) (hB : B.WF) (h : A.mul B = ok C) (x : Nat → R) :
+    C.apply x = A.apply (B.apply x) := mul_apply A B C hA hB h x
+
+/-- `&SpMat * &SpVec` -/
+theorem mul_vec_entries (A : SpMat R) (v : SpVec R) (hA : A.WF) (hv : v.WF) (h : A.ncols = v.dim) :
+    ∃ w, A.mulVec v = ok w ∧ w.dim = A.nrows ∧ w.WF ∧ w.entry = A.apply v.entry := mulVec_spec A v hA hv h
+
+/-! ### permutation / selection matrices -/
+
+theorem from_row_perm_entries (p : Perm) (hp : p.Valid) :
+    ∃ F : SpMat R, fromRowPerm p = ok F ∧ F.WF ∧ F.nrows = p.dim ∧ F.ncols = p.dim ∧
+      ∀ i j, F.entry i j = if j < p.dim ∧ p.fn j = i then 1 else 0 := fromRowPerm_spec p hp
+
+theorem from_col_perm_entries (p : Perm) (hp : p.Valid) :
+    ∃ F : SpMat R, fromColPerm p = ok F ∧ F.WF ∧ F.nrows = p.dim ∧ F.ncols = p.dim ∧
+      ∀ i j, F.entry i j = if i < p.dim ∧ p.fn i = j then 1 else 0 := fromColPerm_spec p hp
+
+/-! ### `Trans` -/
+
+/-- `forward v = forward_mat * v`, both equal `fₙ ∘ ⋯ ∘ f₀` on the coordinates of `v`, for every transform
+satisfying the invariant (which every history establishes, see `trans_history_laws`) -/
+theorem trans_forward_eq_forward_mat (t : Trans R) (ht : t.Inv) (v : SpVec R) (hv : v.WF) (hd : v.dim = t.srcDim) :
+    ∃ w M w', t.forward v = ok w ∧ t.forwardMat = ok M ∧ M.mulVec v = ok w' ∧
+      w.dim = t.tgtDim ∧ M.nrows = t.tgtDim ∧ M.ncols = t.srcDim ∧
+      (∀ i, w.entry i = fwdSem t.fMats v.entry i) ∧ (∀ i, w'.entry i = w.entry i) := by
+  obtain ⟨w, h1, h2, h3, h4⟩ := forward_spec t ht v hv hd
+  obtain ⟨M, g1, g2, g3, g4, g5⟩ := forwardMat_spec t ht
+  obtain ⟨w', k1, k2, k3, k4⟩ := mulVec_spec M v g2 hv (by rw [g4, hd])
+  refine ⟨w, M, w', h1, g1, k1, h3, g3, g4, fun i => by rw [h4], ?_⟩
+  intro i
+  rw [k4, h4]
+  by_cases hi : i < t.tgtDim
+  · exact g5 v.entry i hi
+  · rw [apply_oob M g2 _ i (by omega)]
+    have : w.entry i = 0 := by
+      have hw : w.toMat.WF := h2
+      have := hw.entry_oob i 0 (by simp [SpVec.toMat]; omega)
+      exact this
+    rw [← h4, this]
+
+theorem trans_backward_eq_backward_mat (t : Trans R) (ht : t.Inv) (v : SpVec R) (hv : v.WF) (hd : v.dim = t.tgtDim) :
+    ∃ w M w', t.backward v = ok w ∧ t.backwardMat = ok M ∧ M.mulVec v = ok w' ∧
+      w.dim = t.srcDim ∧ M.nrows = t.srcDim ∧ M.ncols = t.tgtDim ∧
+      (∀ i, w.entry i = bwdSem t.bMats v.entry i) ∧ (∀ i, w'.entry i = w.entry i) := by
+  obtain ⟨w, h1, h2, h3, h4⟩ := backward_spec t ht v hv hd
+  obtain ⟨M, g1, g2, g3, g4, g5⟩ := backwardMat_spec t ht
+  obtain ⟨w', k1, k2, k3, k4⟩ := mulVec_spec M v g2 hv (by rw [g4, hd])
+  refine ⟨w, M, w', h1, g1, k1, h3, g3, g4, fun i => by rw [h4], ?_⟩
+  intro i
+  rw [k4, h4]
+  by_cases hi : i < t.srcDim
+  · exact g5 v.entry i hi
+  · rw [apply_oob M g2 _ i (by omega)]
+    have : w.entry i = 0 := by
+      have hw : w.toMat.WF := h2
+      have := hw.entry_oob i 0 (by simp [SpVec.toMat]; omega)
+      exact this
+    rw [← h4, this]
+
+/-- `forward_mat = fₙ ⋯ f₀` as a linear map (`tgt × src`, well formed) -/
+theorem trans_forward_mat_is_product (t : Trans R) (ht : t.Inv) :
+    ∃ M, t.forwardMat = ok M ∧ M.WF ∧ M.nrows = t.tgtDim ∧ M.ncols = t.srcDim ∧
+      ∀ x i, i < t.tgtDim → M.apply x i = fwdSem t.fMats x i := forwardMat_spec t ht
+
+/-- `backward_mat = b₀ ⋯ bₙ` as a linear map (`src × tgt`, well formed) -/
+theorem trans_backward_mat_is_product (t : Trans R) (ht : t.Inv) :
+    ∃ M, t.backwardMat = ok M ∧ M.WF ∧ M.nrows = t.srcDim ∧ M.ncols = t.tgtDim ∧
+      ∀ y i, i < t.srcDim → M.apply y i = bwdSem t.bMats y i := backwardMat_spec t ht
+
+/-- `reduce` changes neither map, nor the dimensions, nor `is_id` -/
+theorem trans_reduce_preserves (t : Trans R) (ht : t.Inv) :
+    ∃ t', t.reduce = ok t' ∧ t'.Inv ∧ t'.srcDim = t.srcDim ∧ t'.tgtDim = t.tgtDim ∧
+      (∀ x, fwdSem t'.fMats x = fwdSem t.fMats x) ∧ (∀ y, bwdSem t'.bMats y = bwdSem t.bMats y) ∧
+      t'.fMats.length ≤ 1 ∧ t'.bMats.length ≤ 1 ∧ (t'.fMats = [] ↔ t.fMats = []) := reduce_spec t ht
+
+/-- dimension bookkeeping of `append` / `merge` / `append_perm` / `sub`, and what they reject -/
+theorem trans_append_dims (t : Trans R) (ht : t.Inv) (f b : SpMat R) (hf : f.WF) (hb : b.WF)
+    (h1 : f.ncols = b.nrows) (h2 : f.nrows = b.ncols) (h3 : f.ncols = t.tgtDim) :
+    t.append f b = ok { t with tgtDim := f.nrows, fMats := t.fMats ++ [f], bMats := t.bMats ++ [b] } ∧
+    ({ t with tgtDim := f.nrows, fMats := t.fMats ++ [f], bMats := t.bMats ++ [b] } : Trans R).Inv :=
+  append_spec t ht f b hf hb h1 h2 h3
+
+theorem trans_append_rejects (t : Trans R) (f b : SpMat R)
+    (h : ¬ (f.ncols = b.nrows ∧ f.nrows = b.ncols ∧ f.ncols = t.tgtDim)) : t.append f b = panic :=
+  append_reject t f b h
+
+theorem trans_merge_dims (t o : Trans R) (ht : t.Inv) (ho : o.Inv) (h : t.tgtDim = o.srcDim) :
+    t.merge o = ok { t with tgtDim := o.tgtDim, fMats := t.fMats ++ o.fMats, bMats := t.bMats ++ o.bMats } ∧
+    ({ t with tgtDim := o.tgtDim, fMats := t.fMats ++ o.fMats, bMats := t.bMats ++ o.bMats } : Trans R).Inv :=
+  merge_spec t o ht ho h
+
+theorem trans_merge_rejects (t o : Trans R) (h : t.tgtDim ≠ o.srcDim) : t.merge o = panic := merge_reject t o h
+
+theorem trans_forward_rejects (t : Trans R) (v : SpVec R) (hd : v.dim ≠ t.srcDim) : t.forward v = panic :=
+  forward_reject t v hd
+theorem trans_backward_rejects (t : Trans R) (v : SpVec R) (hd : v.dim ≠ t.tgtDim) : t.backward v = panic :=
+  backward_reject t v hd
+
+/-- `sub(indices)` appends the selection of the listed coordinates (and the inclusion back) -/
+theorem trans_sub_factors (t : Trans R) (ht : t.Inv) (indices : List Nat) (h : ∀ j ∈ indices, j < t.tgtDim) :
+    ∃ F B : SpMat R,
+      t.sub indices = ok { t with tgtDim := F.nrows, fMats := t.fMats ++ [F], bMats := t.bMats ++ [B] } ∧
+      F.nrows = indices.length ∧
+      (∀ i j, F.entry i j = if indices[i]? = some j then 1 else 0) ∧
+      (∀ i j, B.entry i j = if indices[j]? = some i then 1 else 0) ∧
+      ({ t with tgtDim := F.nrows, fMats := t.fMats ++ [F], bMats := t.bMats ++ [B] } : Trans R).Inv :=
+  sub_spec' t ht indices h
+
+theorem trans_append_perm_factors (t : Trans R) (ht : t.Inv) (p : Perm) (hp : p.Valid) (hd : p.dim = t.tgtDim) :
+    ∃ F B : SpMat R, fromRowPerm p = ok F ∧ fromColPerm p = ok B ∧
+      t.appendPerm p = ok { t with tgtDim := F.nrows, fMats := t.fMats ++ [F], bMats := t.bMats ++ [B] } ∧
+      F.nrows = t.tgtDim ∧
+      ({ t with tgtDim := F.nrows, fMats := t.fMats ++ [F], bMats := t.bMats ++ [B] } : Trans R).Inv :=
+  appendPerm_spec t ht p hp hd
+
+/-- **the `Trans` laws for ANY history** of `id / new / append / append_perm / merge / sub / reduce` that runs
+without panic: the invariant holds and the maps behind `forward`/`forward_mat` and `backward`/`backward_mat`
+are the compositions `fₙ ∘ ⋯ ∘ f₀` / `b₀ ∘ ⋯ ∘ bₙ` of ALL factors the history appended, no matter where
+`reduce` was called in between. -/
+theorem trans_history_laws (h : Hist R) (hg : h.Good) (t : Trans R) (hr : h.run = ok t) :
+    t.Inv ∧ (∀ x, fwdSem t.fMats x = fwdSem h.fFactors x) ∧ (∀ y, bwdSem t.bMats y = bwdSem h.bFactors y) :=
+  history_laws h hg t hr
+
+/-! ### dense `Mat` primitives -/
+
+theorem dense_swap_rows (A : DMat R) (i j : Nat) (hi : i < A.nrows) (hj : j < A.nrows) :
+    ∃ B, A.swapRows i j = ok B ∧ B.nrows = A.nrows ∧ B.ncols = A.ncols ∧
+      ∀ r c, r < A.nrows → c < A.ncols →
+        B.get r c = if r = i then A.get j c else if r = j then A.get i c else A.get r c := swapRows_spec A i j hi hj
+theorem dense_swap_rows_rejects (A : DMat R) (i j : Nat) (h : ¬ (i < A.nrows ∧ j < A.nrows)) :
+    A.swapRows i j = panic := swapRows_reject A i j h
+
+theorem dense_swap_cols (A : DMat R) (i j : Nat) (hi : i < A.ncols) (hj : j < A.ncols) :
+    ∃ B, A.swapCols i j = ok B ∧ B.nrows = A.nrows ∧ B.ncols = A.ncols ∧
+      ∀ r c, r < A.nrows → c < A.ncols →
+        B.get r c = if c = i then A.get r j else if c = j then A.get r i else A.get r c := swapCols_spec A i j hi hj
+theorem dense_swap_cols_rejects (A : DMat R) (i j : Nat) (h : ¬ (i < A.ncols ∧ j < A.ncols)) :
+    A.swapCols i j = panic := swapCols_reject A i j h
+
+theorem dense_mul_row (A : DMat R) (i : Nat) (a : R) (hi : i < A.nrows) :
+    ∃ B, A.mulRow i a = ok B ∧ B.nrows = A.nrows ∧ B.ncols = A.ncols ∧
+      ∀ r c, r < A.nrows → c < A.ncols → B.get r c = if r = i then A.get i c * a else A.get r c := mulRow_spec A i a hi
+theorem dense_mul_row_rejects (A : DMat R) (i : Nat) (a : R) (hi : ¬ i < A.nrows) : A.mulRow i a = panic :=
+  mulRow_reject A i a hi
+
+theorem dense_mul_col (A : DMat R) (j : Nat) (a : R) (hj : j < A.ncols) :
+    ∃ B, A.mulCol j a = ok B ∧ B.nrows = A.nrows ∧ B.ncols = A.ncols ∧
+      ∀ r c, r < A.nrows → c < A.ncols → B.get r c = if c = j then A.get r j * a else A.get r c := mulCol_spec A j a hj
+theorem dense_mul_col_rejects (A : DMat R) (j : Nat) (a : R) (hj : ¬ j < A.ncols) : A.mulCol j a = panic :=
+  mulCol_reject A j a hj
+
+theorem dense_add_row_to (A : DMat R) (i j : Nat) (a : R) (hi : i < A.nrows) (hj : j < A.nrows) :
+    ∃ B, A.addRowTo i j a = ok B ∧ B.nrows = A.nrows ∧ B.ncols = A.ncols ∧
+      ∀ r c, r < A.nrows → c < A.ncols → B.get r c = if r = j then A.get j c + A.get i c * a else A.get r c :=
+  addRowTo_spec A i j a hi hj
+theorem dense_add_row_to_rejects (A : DMat R) (i j : Nat) (a : R) (h : ¬ (i < A.nrows ∧ j < A.nrows)) :
+    A.addRowTo i j a = panic := addRowTo_reject A i j a h
+
+theorem dense_add_col_to (A : DMat R) (i j : Nat) (a : R) (hi : i < A.ncols) (hj : j < A.ncols) :
+    ∃ B, A.addColTo i j a = ok B ∧ B.nrows = A.nrows ∧ B.ncols = A.ncols ∧
+      ∀ r c, r < A.nrows → c < A.ncols → B.get r c = if c = j then A.get r j + A.get r i * a else A.get r c :=
+  addColTo_spec A i j a hi hj
+theorem dense_add_col_to_rejects (A : DMat R) (i j : Nat) (a : R) (h : ¬ (i < A.ncols ∧ j < A.ncols)) :
+    A.addColTo i j a = panic := addColTo_reject A i j a h
+
+/-- `left_elementary([a,b,c,d], i, j)`, `i ≠ j`: rows `(i, j)` are multiplied by `[a b; c d]` from the left -/
+theorem dense_left_elementary (A : DMat R) (a b c d : R) (i j : Nat) (hi : i < A.nrows) (hj : j < A.nrows) (hij : i ≠ j) :
+    ∃ B, A.leftElementary a b c d i j = ok B ∧ B.nrows = A.nrows ∧ B.ncols = A.ncols ∧
+      ∀ r k, r < A.nrows → k < A.ncols →
+        B.get r k = if r = i then A.get i k * a + A.get j k * b
+                    else if r = j then A.get i k * c + A.get j k * d else A.get r k :=
+  leftElementary_spec A a b c d i j hi hj hij
+theorem dense_left_elementary_rejects (A : DMat R) (a b c d : R) (i j : Nat) (h : ¬ (i < A.nrows ∧ j < A.nrows)) :
+    A.leftElementary a b c d i j = panic := leftElementary_reject A a b c d i j h
+
+/-- `right_elementary([a,b,c,d], i, j)`, `i ≠ j`: columns `(i, j)` are multiplied by `[a c; b d]` from the right -/
+theorem dense_right_elementary (A : DMat R) (a b c d : R) (i j : Nat) (hi : i < A.ncols) (hj : j < A.ncols) (hij : i ≠ j) :
+    ∃ B, A.rightElementary a b c d i j = ok B ∧ B.nrows = A.nrows ∧ B.ncols = A.ncols ∧
+      ∀ r k, r < A.nrows → k < A.ncols →
+        B.get r k = if k = i then A.get r i * a + A.get r j * b
+                    else if k = j then A.get r i * c + A.get r j * d else A.get r k :=
+  rightElementary_spec A a b c d i j hi hj hij
+theorem dense_right_elementary_rejects (A : DMat R) (a b c d : R) (i j : Nat) (h : ¬ (i < A.ncols ∧ j < A.ncols)) :
+    A.rightElementary a b c d i j = panic := rightElementary_reject A a b c d i j h
+
+theorem dense_submat (A : DMat R) (i0 i1 j0 j1 : Nat) (hi : i0 ≤ i1 ∧ i1 ≤ A.nrows) (hj : j0 ≤ j1 ∧ j1 ≤ A.ncols) :
+    ∃ B, A.submat i0 i1 j0 j1 = ok B ∧ B.nrows = i1 - i0 ∧ B.ncols = j1 - j0 ∧
+      ∀ i j, i < i1 - i0 → j < j1 - j0 → B.get i j = A.get (i0 + i) (j0 + j) := dsubmat_spec A i0 i1 j0 j1 hi hj
+theorem dense_submat_rejects (A : DMat R) (i0 i1 j0 j1 : Nat)
+    (h : ¬ ((i0 ≤ i1 ∧ i1 ≤ A.nrows) ∧ (j0 ≤ j1 ∧ j1 ≤ A.ncols))) : A.submat i0 i1 j0 j1 = panic :=
+  dsubmat_reject A i0 i1 j0 j1 h
+
+theorem dense_mul_kernel (A B : DMat R) (h : A.ncols = B.nrows) :
+    ∃ C, A.mul B = ok C ∧ C.nrows = A.nrows ∧ C.ncols = B.ncols ∧
+      ∀ i j, i < A.nrows → j < B.ncols → C.get i j = ∑ k ∈ Finset.range A.ncols, A.get i k * B.get k j :=
+  dmul_spec A B h
+
+/-! ### sparse ↔ dense -/
+
+theorem to_dense_entries (A : SpMat R) (i j : Nat) (hi : i < A.nrows) (hj : j < A.ncols) :
+    A.toDense.get i j = A.entry i j := toDense_get A i j hi hj
+
+theorem to_sparse_entries (A : DMat R) :
+    A.toSparse.nrows = A.nrows ∧ A.toSparse.ncols = A.ncols ∧ A.toSparse.WF ∧
+      ∀ i j, i < A.nrows → j < A.ncols → A.toSparse.entry i j = A.get i j := toSparse_spec A
 
 end Yuiv.C13
